@@ -9,6 +9,7 @@ import rules_state  # noqa: F401
 import rules_arith  # noqa: F401
 import rules_repair  # noqa: F401
 import rules_order  # noqa: F401
+import rules_width  # noqa: F401
 
 COMMON_ASSUME = [
     "clang 14 front end parses /repo as g++ 12 compiles it (same flags, -std=gnu++17, -UNDEBUG)",
@@ -98,12 +99,13 @@ PROPS = {
         "assumptions": COMMON_ASSUME,
     },
     "C07": {
-        "rules": ["R-CHUNKINIT", "R-ITERSTATE", "R-STATE", "R-DERIVED", "R-FIXEDBUF", "R-INITCOVER", "R-EXTENT", "R-KILLUSE", "R-DANGLING", "R-ALPHAGUARD", "R-DEDUP", "R-IDGUARD", "R-SHIFT", "R-CLAMP", "R-ZEROFILL", "R-GROW", "R-SLACK", "R-ALLOCFORM", "R-LOCKSET", "R-BYTEINDEX", "R-REFCOUNT", "R-COUNTERWIDTH", "R-BUCKET", "R-PREDINDEX"],
+        "rules": ["R-VARFIELD", "R-CHUNKINIT", "R-ITERSTATE", "R-STATE", "R-DERIVED", "R-FIXEDBUF", "R-INITCOVER", "R-EXTENT", "R-KILLUSE", "R-DANGLING", "R-ALPHAGUARD", "R-DEDUP", "R-IDGUARD", "R-SHIFT", "R-CLAMP", "R-ZEROFILL", "R-GROW", "R-SLACK", "R-ALLOCFORM", "R-LOCKSET", "R-BYTEINDEX", "R-REFCOUNT", "R-COUNTERWIDTH", "R-BUCKET", "R-PREDINDEX"],
         "explanation": "Structural preconditions of memory safety, each a necessary condition with confirmed instances: no operation consults state the "
                        "creation path never set, saved extents equal allocated extents, nothing reachable from a dictionary is freed by an operation or "
                        "left dangling by a loader, pattern bytes are range-checked before indexing, duplicate iterators have their sentinel, ids are "
                        "guarded, shifts stay below the operand width over the whole legal domain, bucket size 0/1 cannot reach the arithmetic.",
-        "decided": ["every field an iterator's hasNext/next/size reads is assigned by each constructor of the concrete iterator class (R-ITERSTATE; found the block table iterator's size, fixed 1935db3)",
+        "decided": ["callers of the libcds variable-field primitives form the end of a possibly empty field at size_t width, so that the empty-field test of the primitives holds (R-VARFIELD; found BitSequenceRRR::build / rank1, fixed 4286cb7)",
+                    "every field an iterator's hasNext/next/size reads is assigned by each constructor of the concrete iterator class (R-ITERSTATE; found the block table iterator's size, fixed 1935db3)",
                     "a scalar member computed from the data by the building path and read by queries/getSize/save is not left at a constant on the load path: it is read back or recomputed (R-DERIVED)",
                     "stores into fixed-size arrays through a run-time index have some bound on the way to the store (R-FIXEDBUF; only the absence of any bound is reported)",
                     "no uninitialised/NULL state is consulted (R-STATE, R-INITCOVER, R-ZEROFILL)", "no over-read at save (R-EXTENT)",
@@ -176,14 +178,15 @@ PROPS = {
         "assumptions": COMMON_ASSUME,
     },
     "C19": {
-        "rules": ["R-DERIVED-CDS", "R-CUMSUM", "R-MIRROR", "R-EXTENT", "R-DISPATCH", "R-SAVEPURE", "R-CONSTPURE", "R-NARROW", "R-REFCOUNT"],
+        "rules": ["R-VARFIELD", "R-DERIVED-CDS", "R-CUMSUM", "R-MIRROR", "R-EXTENT", "R-DISPATCH", "R-SAVEPURE", "R-CONSTPURE", "R-NARROW", "R-REFCOUNT"],
         "explanation": "ONLY the last clause of the property (`the answers are unchanged after save/load`) is addressed, and only structurally: "
                        "writer/reader agreement, allocation extents, tag dispatch, save purity and element-to-field restoration for the bundled classes "
                        "the dictionaries persist and for the variants named in the property (BitSequenceRG/RRR/SDArray/DArray/375, WaveletTree, "
                        "WaveletTreeNoptrs, their nodes, coders and mappers). The core of the property - rank/select/access equal their definitions - "
                        "is value-level and NOT decided. "
                        "Added later: const query methods are effect-free (MOD summaries), non-image fields are related to image values through every constructor's definition, the RRR table's reference count discipline, no narrowing writes.",
-        "decided": ["a scalar member computed from the data by the building path and read by queries/getSize/save is not left at a constant on the load path: it is read back or recomputed (R-DERIVED-CDS, libcds classes)",
+        "decided": ["callers of the libcds variable-field primitives form the end of a possibly empty field at size_t width, so that the empty-field test of the primitives holds (R-VARFIELD; found BitSequenceRRR::build / rank1, fixed 4286cb7)",
+                    "a scalar member computed from the data by the building path and read by queries/getSize/save is not left at a constant on the load path: it is read back or recomputed (R-DERIVED-CDS, libcds classes)",
                     "in-place cumulative-count passes over symbol-count tables reach the last entry used afterwards (R-CUMSUM)",
                     "save/load element-by-element agreement of every bundled class in the cone (R-MIRROR)", "allocation = saved extent (R-EXTENT)",
                     "family dispatchers have an arm for every persisted class and the right tag (R-DISPATCH)", "save writes nothing but the stream (R-SAVEPURE)",
